@@ -687,3 +687,87 @@ func vfEnvelopeC14(flags byte, p []byte) []byte {
 	copy(b[5:], p)
 	return b
 }
+
+// TestVerifC14AfterEndStream: bytes that follow the end-of-stream message (a
+// misbehaving peer keeps writing) never become part of its content.
+func TestVerifC14AfterEndStream(t *testing.T) {
+	rep := verifkit.Begin("C14", "after-end-stream", "Connect streaming and gRPC-Web response bodies: one data message, the end-of-stream message (plain, or gzip-compressed with the encoding negotiated), then further bytes {another data message, a second end-of-stream message, garbage}; delivered whole, in 1..9-byte reads, and split exactly after the end-of-stream payload; oracle: the first end-of-stream event carries exactly its own content; the application receives all bytes unchanged; distinct = (protocol, compressed, tail, chunking)")
+	defer rep.Write()
+	for _, proto := range []string{"connect", "grpc-web"} {
+		for _, compressed := range []bool{false, true} {
+			content, flag, hdr, ct := `{"metadata":{"x-end":["1"]}}`, byte(2), "Connect-Content-Encoding", "application/connect+proto"
+			if proto == "grpc-web" {
+				content, flag, hdr, ct = "grpc-status: 0\r\nx-end: 1\r\n", 0x80, "Grpc-Encoding", "application/grpc-web+proto"
+			}
+			payload := []byte(content)
+			fl := flag
+			h := http.Header{"Content-Type": {ct}}
+			if compressed {
+				payload, _ = verifkit.IndepCompress("gzip", []byte(content))
+				fl |= 1
+				h.Set(hdr, "gzip")
+			}
+			head := append(vfEnvelopeC14(0, []byte("data")), vfEnvelopeC14(fl, payload)...)
+			tails := map[string][]byte{
+				"data-message":       vfEnvelopeC14(0, []byte("late data")),
+				"second-end-stream":  vfEnvelopeC14(flag, []byte(`{"second":true}`)),
+				"garbage":            []byte("\x00\x01GARBAGE AFTER THE END"),
+				"nothing":            nil,
+			}
+			for tname, tail := range tails {
+				body := append(append([]byte(nil), head...), tail...)
+				for _, chunking := range []string{"whole", "small", "split-after-end-stream", "split-inside-tail"} {
+					rep.Eval(1)
+					rep.DistinctKey(proto, compressed, tname, chunking)
+					var chunks []int
+					switch chunking {
+					case "whole":
+						chunks = []int{len(body)}
+					case "small":
+						chunks = []int{3, 1, 9, 2, 5}
+					case "split-after-end-stream":
+						chunks = []int{len(head), 1 << 20}
+					default:
+						chunks = []int{len(head) + 2, 1 << 20}
+					}
+					coll := &vfCollector{}
+					bld := vfNewBuilder(coll, false)
+					inner := &verifkit.ScriptReader{Data: append([]byte(nil), body...), Plan: chunks, StallAt: -1}
+					var got []byte
+					w := map[string]any{"protocol": proto, "end_stream_compressed": compressed, "bytes_after_end_stream": tname, "chunking": chunking}
+					pn := verifkit.Catch(func() {
+						rd := newReader(h, inner, false, bld, func() {})
+						got, _ = io.ReadAll(rd)
+						bld.build()
+					})
+					if pn != nil {
+						rep.Violation("body/after-end-stream/panic/"+pn.Site, pn.Value, w)
+						continue
+					}
+					if !bytes.Equal(got, body) {
+						rep.Violation("body/after-end-stream/bytes-altered", "the application did not receive the body unchanged", w)
+					}
+					ts := coll.Traces()
+					if len(ts) != 1 {
+						rep.Violation("body/after-end-stream/trace-count", fmt.Sprintf("%d traces", len(ts)), w)
+						continue
+					}
+					first, found := "", false
+					for _, e := range ts[0].Events {
+						if es, ok := e.(*ResponseBodyEndStream); ok && !found {
+							first, found = es.Content, true
+						}
+					}
+					if !found || first != content {
+						w["reported"] = verifkit.Trunc(first, 120)
+						rep.Violation("body/after-end-stream/content-differs/"+tname, fmt.Sprintf("end-of-stream content reported as %q (found=%v), it is %q", verifkit.Trunc(first, 60), found, content), w)
+					} else {
+						rep.Count("end_stream_content_exact", 1)
+					}
+				}
+			}
+		}
+	}
+	rep.Sample(map[string]any{"body": "[data][end-stream '{...}'][data 'late data'] in one read", "expect": "end-of-stream content = '{...}' only"})
+	rep.RequireMin("end_stream_content_exact", 40)
+}
